@@ -48,6 +48,7 @@ fn main() {
         "incentive" => suites::incentive::main(seed, first, runs, ops, &out, kv.get("sched"), kv.get("table").and_then(|t| t.parse().ok())),
         "trio" => suites::trio::main(seed, first, runs, ops, &out),
         "route" => suites::route::main(seed, first, runs, ops, &out),
+        "helper" => suites::helper::main(seed, first, runs, ops, &out),
         "math" => suites::math::main(seed, first, runs, ops, &out, kv.get("kind").map(|s| s.as_str()).unwrap_or("all")),
         _ => {
             eprintln!("unknown suite {suite}");
